@@ -267,6 +267,8 @@ func c20Exact(c *report.Collector, tier string) {
 	// half-typed outer calls around complete inner ones (the only files with parse errors that are compared)
 	halfTyped := map[string]bool{}
 	for _, h := range []string{"f2(f1(1), ", "f2(f1(1), \n", "f2(\"s\", [f1(1), )", "f3(f2(1, 2), v1(1", "f2(f1(1)", "f1(f2(1, 2", "v2(1, f3(1, 2, 3), "} {
+		// (calls with a slot left empty between two commas - f2(1, , ) - are outside the alphabet: the statement lists
+		// trailing commas and missing parentheses as the half-typed forms, and the parser drops the empty slot)
 		halfTyped[h] = true
 		calls = append(calls, h)
 	}
